@@ -71,6 +71,13 @@ OptimAccepts == st.tags
 HooksInstalled == st.tags => (st.dc /\ st.rx)
 \* values change only through explicit precision loss
 ValuesKept == (st.val = "f16") => (\E i \in 1 .. Len(h) : h[i] = "Half")
+\* ---- unbounded histories: IndInv is INDUCTIVE (checked by TLC from every state of the type domain that satisfies it,
+\* one step, all operations enabled), so TagsSurvive holds after histories of ANY length, not only the enumerated <= MaxLen
+StateDomain == [tags : BOOLEAN, typ : Types, depth : Depths, dc : BOOLEAN, rx : BOOLEAN, isParam : BOOLEAN, rg : BOOLEAN,
+                dtype : {"f32", "f64", "f16"}, val : {"exact", "f16"}]
+IndInv == TypeOK /\ TagsSurvive /\ HooksInstalled
+IndInit == st \in StateDomain /\ IndInv /\ h = <<>>
+IndSpec == IndInit /\ [][Next]_vars
 \* tags never change along a step
 TagsConstant == [][st.tags' => (st'.typ = st.typ /\ st'.depth = st.depth)]_vars
 =============================================================================
